@@ -185,8 +185,10 @@ func shrink(t *testing.T, c *Check, tier string, vals []int, sig string, budget 
 	best := append([]int(nil), vals...)
 	var bestOut *Outcome
 	tries := 0
+	deadline := time.Now().Add(time.Duration(envInt("VERIF_SHRINK_WALL_S", 25)) * time.Second)
 	try := func(cand []int) bool {
-		if tries >= budget {
+		if tries >= budget || time.Now().After(deadline) {
+			tries = budget
 			return false
 		}
 		tries++
